@@ -28,7 +28,7 @@ from dashlive.drm.keymaterial import KeyMaterial
 from dashlive.server import models
 
 from .base import HTMLHandlerBase
-from .decorators import login_required, uses_keypair, current_keypair
+from .decorators import login_required, rejects_malformed_payload, uses_keypair, current_keypair
 from .exceptions import CsrfFailureException
 from .utils import is_ajax, jsonify
 
@@ -78,6 +78,7 @@ class KeyHandler(HTMLHandlerBase):
         })
         return flask.render_template('media/edit_key.html', **context)
 
+    @rejects_malformed_payload
     def post(self, kpk: int | None = None) -> flask.Response:
         """
         Saves changes submitted by HTML form
@@ -110,6 +111,7 @@ class KeyHandler(HTMLHandlerBase):
         flask.flash(f'Saved changes to keypair {model.hkid}', 'success')
         return flask.redirect(self.get_next_url_with_fallback('list-streams'))
 
+    @rejects_malformed_payload
     def put(self, **kwargs):
         """
         handler for adding a key pair
